@@ -21,13 +21,16 @@ ENGINE = "threadworld"
 POOL_SIZES = ("small", "small", "small", "medium")
 
 
-def job_fn(pool: dict, vfs: Vfs, job: dict):
-    """Returns a closure that runs one job on its own fresh input objects and returns its digest."""
+def job_fn(pool: dict, vfs: Vfs, job: dict, alone: bool = False):
+    """Returns a closure that runs one job on its own fresh input objects and returns its digest. Interpreter-wide
+    settings are sampled after the call only when it runs alone (the reference): while other calls are in flight a
+    setting that one of them changes for the duration of its own work (and restores) is legitimately visible; what the
+    calls leave behind is compared once, when all of them have returned (simulate: settings_at_quiescence)."""
     k = job["k"]
 
     def run():
         d = run_inner()
-        if isinstance(d, dict):
+        if isinstance(d, dict) and alone:
             d["process_settings_after"] = model.process_settings()
         return d
 
@@ -88,7 +91,7 @@ def simulate(pool: dict, plan: list[list[dict]], strategy: dict, sched_seed: int
     results: dict = {}
 
     def make_thread(ti, jobs):
-        fns = [job_fn(pool, vfs, j) for j in jobs]
+        fns = [job_fn(pool, vfs, j, alone=(len(plan) == 1 and len(plan[0]) == 1)) for j in jobs]
 
         def body():
             out = []
@@ -125,6 +128,7 @@ def simulate(pool: dict, plan: list[list[dict]], strategy: dict, sched_seed: int
             inter += 1
         last = t
     return {"results": results, "failure": (type(failure).__name__ + ": " + str(failure)) if failure else None,
+            "settings_at_quiescence": model.process_settings(),
             "events": sc.total_events, "switches": len(sc.switches), "switch_list": [list(x) for x in sc.switches][:20000],
             "schedule_fp": fp, "site_fp": site_fp, "shared_site_events": len(sc.site_trace), "shared_site_interleavings": inter,
             "probes": sc.probes, "locks": locks, "first": getattr(sc, "first", None),
@@ -229,12 +233,21 @@ def judge(sim: dict, plan, refs: dict, seq_events: int) -> list:
             continue
         for o in outs:
             ref = refs[job_key(o["job"])]
+            if isinstance(ref.get("digest"), dict) and "process_settings_after" in ref["digest"]:
+                ref = dict(ref, digest={k_: v_ for k_, v_ in ref["digest"].items() if k_ != "process_settings_after"})
             if "escaped" in o:
                 viols.append({"sig": {"clause": "none-raises-because-of-the-others", "kind": o["escaped"]["raised"], "job": o["job"]["k"]},
                               "detail": o["escaped"]})
             elif model.canon(o["digest"]) != model.canon(ref["digest"]):
                 viols.append({"sig": {"clause": "each-call-returns-its-sequential-result", "job": o["job"]["k"], "field": hw._which_field(o["digest"], ref["digest"])},
                               "detail": f"thread {ti} job {job_key(o['job'])}"})
+    # what the calls leave behind, once all have returned: what one of them leaves behind when it runs alone
+    left = [refs[job_key(j)]["digest"].get("process_settings_after") for jobs in plan for j in jobs
+            if isinstance(refs[job_key(j)].get("digest"), dict)]
+    final = sim.get("settings_at_quiescence")
+    if left and final is not None and all(model.canon({"s": final}) != model.canon({"s": x}) for x in left):
+        viols.append({"sig": {"clause": "calls-leave-the-process-as-sequential-calls-do", "field": "process_settings"},
+                      "detail": f"after all calls returned: {final}; after any one of them alone: {left[0]}"})
     return viols
 
 
